@@ -40,9 +40,14 @@ func init() {
 	props["C19"] = prop{Run: runC19, Replay: func(id string, raw json.RawMessage) {
 		var w struct {
 			CI *c19CustomImpl `json:"custom_impl"`
+			SH *c19Shared     `json:"shared"`
 		}
 		if json.Unmarshal(raw, &w) == nil && w.CI != nil {
 			runC19CustomImpl(id, w.CI)
+			return
+		}
+		if w.SH != nil {
+			runC19Shared(id, w.SH)
 			return
 		}
 		var c c19Case
@@ -704,13 +709,103 @@ func runC19(seed uint64, n int, tier string) {
 			}
 		}
 	}
-	parallel(n+len(cis), func(i int) {
-		if i < n {
+	// one option VALUE used for several drivers (common options once, per-host options on top): it
+	// takes effect on each driver's own setting and on nothing else -- not on the other driver, not
+	// on the caller's slice
+	var shs []*c19Shared
+	for _, k := range []string{"g", "n", "c"} {
+		for _, spare := range []int{0, 6} {
+			for _, first := range []bool{true, false} {
+				shs = append(shs, &c19Shared{Kind: k, Spare: spare, First: first})
+			}
+		}
+	}
+	parallel(n+len(cis)+len(shs), func(i int) {
+		switch {
+		case i < n:
 			runC19Case(caseID("C19", seed, i), cases[i])
-		} else {
+		case i < n+len(cis):
 			runC19CustomImpl(caseID("C19", seed, i), cis[i-n])
+		default:
+			runC19Shared(caseID("C19", seed, i), shs[i-n-len(cis)])
 		}
 	})
+}
+
+// c19Shared: the additive extra-args option built ONCE from a caller's slice (with or without spare
+// capacity) and given to two drivers, each with a further extra-args option of its own.
+type c19Shared struct {
+	Kind  string `json:"kind"`  // g | n | c
+	Spare int    `json:"spare"` // spare capacity of the caller's slice
+	First bool   `json:"first"` // the shared option is the first extra-args option each driver gets
+}
+
+func runC19Shared(id string, c *c19Shared) {
+	defer watchCase(id, map[string]interface{}{"shared": c})()
+	cs := &Case{ID: id, Kind: "shared/" + c.Kind, HypOK: true, Nontrivial: true, Replay: map[string]interface{}{"shared": c}}
+	common := make([]string, 0, 2+c.Spare)
+	common = append(common, "-o", "ServerAliveInterval=5")
+	shared := options.WithSystemTransportOpenArgs(common)
+	build := func(sy *transport.System, own []string) error {
+		opts := []util.Option{options.WithCustomTransport(sy)}
+		if c.First {
+			opts = append(opts, shared, options.WithSystemTransportOpenArgs(own))
+		} else {
+			opts = append(opts, options.WithSystemTransportOpenArgs(own), shared)
+		}
+		opts = append(opts, options.WithPort(2022))
+		var err error
+		switch c.Kind {
+		case "g":
+			_, err = generic.NewDriver("sim", opts...)
+		case "n":
+			opts = append(opts, options.WithPrivilegeLevels(c19PrivMap([]string{"^a#$"})), options.WithDefaultDesiredPriv("p0"))
+			_, err = network.NewDriver("sim", opts...)
+		default:
+			_, err = netconf.NewDriver("sim", opts...)
+		}
+		return err
+	}
+	sy1, sy2 := &transport.System{}, &transport.System{}
+	own1, own2 := []string{"-J", "jump-one"}, []string{"-J", "jump-two"}
+	if err := build(sy1, own1); err != nil {
+		cs.Oracle, cs.Sig = "constructor failed: "+err.Error(), "C19:shared-error"
+		emit(cs)
+		return
+	}
+	if err := build(sy2, own2); err != nil {
+		cs.Oracle, cs.Sig = "constructor failed: "+err.Error(), "C19:shared-error"
+		emit(cs)
+		return
+	}
+	want := func(own []string) []string {
+		if c.First {
+			return append([]string{"-o", "ServerAliveInterval=5"}, own...)
+		}
+		return append(append([]string{}, own...), "-o", "ServerAliveInterval=5")
+	}
+	eq := func(a, b []string) bool { return strings.Join(a, "\x00") == strings.Join(b, "\x00") && len(a) == len(b) }
+	cs.Obs = fmt.Sprintf("d1=%v d2=%v", sy1.ExtraArgs, sy2.ExtraArgs)
+	switch {
+	case !eq(sy1.ExtraArgs, want(own1)):
+		cs.Oracle = fmt.Sprintf("after a second driver was built with the same option value, the first driver's extra arguments are %v, want %v", sy1.ExtraArgs, want(own1))
+		cs.Sig = "C19:shared-option-crosstalk"
+	case !eq(sy2.ExtraArgs, want(own2)):
+		cs.Oracle = fmt.Sprintf("the second driver's extra arguments are %v, want %v", sy2.ExtraArgs, want(own2))
+		cs.Sig = "C19:shared-option-crosstalk"
+	case !eq(common[:cap(common)], append([]string{"-o", "ServerAliveInterval=5"}, make([]string, c.Spare)...)):
+		cs.Oracle = fmt.Sprintf("the caller's slice was written to: %q", common[:cap(common)])
+		cs.Sig = "C19:caller-slice-written"
+	}
+	if cs.Oracle == "" {
+		// the caller edits its slice afterwards: an already-built driver keeps what it was given
+		common[1] = "ServerAliveInterval=999"
+		if !eq(sy1.ExtraArgs, want(own1)) {
+			cs.Oracle = fmt.Sprintf("editing the caller's slice after the driver was built changed the driver's extra arguments to %v", sy1.ExtraArgs)
+			cs.Sig = "C19:caller-slice-aliased"
+		}
+	}
+	emit(cs)
 }
 
 // c19CustomImpl: WithCustomTransport(impl) where impl is a *transport.File / *transport.System the
